@@ -745,3 +745,45 @@ Proof.
   replace (r_auto_cl r && r_is_seq r && false) with false in H4 by (destruct (r_auto_cl r), (r_is_seq r); reflexivity).
   cbn [andb] in H4. inversion H4; subst h. exact G2.
 Qed.
+
+(* ------------------------------------------------------------------ Response.stream *)
+Theorem stream_write_drops_length r v r' :
+  stream_write r v = Some r' ->
+  hd_getlist (r_headers r') CONTENT_LENGTH = [] /\ last_value (r_headers r') CONTENT_LENGTH = None /\
+  body_bytes r' = body_bytes r ++ encode_item v /\ r_is_seq r' = true /\
+  (forall k, ci_eqb CONTENT_LENGTH k = false -> hd_getlist (r_headers r') k = hd_getlist (r_headers r) k).
+Proof.
+  unfold stream_write. destruct (ensure_sequence r) as [r0|] eqn:E; [|discriminate]. intros H; inversion H; subst r'; clear H.
+  assert (B : body_bytes r0 = body_bytes r /\ r_headers r0 = r_headers r).
+  { unfold ensure_sequence in E. destruct (r_is_seq r); [inversion E; subst; split; reflexivity|].
+    destruct (r_passthrough r); [discriminate|]. inversion E; subst. apply make_sequence_body. }
+  destruct B as [B1 B2]. cbn [with_body r_headers r_body r_is_seq].
+  assert (G : hd_getlist (hd_del_key (r_headers r0) CONTENT_LENGTH) CONTENT_LENGTH = []).
+  { rewrite hd_del_law, ci_eqb_refl. reflexivity. }
+  split; [exact G|]. split; [unfold last_value; rewrite G; reflexivity|]. split; [|split; [reflexivity|]].
+  - unfold body_bytes, with_body in *. cbn [r_body]. rewrite flat_map_app. cbn [flat_map]. rewrite app_nil_r, B1. reflexivity.
+  - intros k Hk. rewrite hd_del_law, Hk, B2. reflexivity.
+Qed.
+
+Theorem stream_write_refusal r v : stream_write r v = None <-> (r_is_seq r = false /\ r_passthrough r = true).
+Proof.
+  unfold stream_write, ensure_sequence. destruct (r_is_seq r), (r_passthrough r); split; intros H; try discriminate; try (destruct H; discriminate); auto.
+Qed.
+
+(* ... so the length the server is told after a write is the length of the body as it now stands *)
+Theorem stream_write_served_length iri join cur r v r' h :
+  clean (r_headers r) -> stream_write r v = Some r' -> r_auto_cl r = true -> bodyless false (r_code r) = false ->
+  get_wsgi_headers iri join cur r' = (h, None) ->
+  hd_getlist h CONTENT_LENGTH = [dec_of_Z (Z.of_nat (length (body_bytes r ++ encode_item v)))].
+Proof.
+  intros C W A NB G. destruct (stream_write_drops_length r v r' W) as (_ & L & B & S & _).
+  assert (P : clean (r_headers r') /\ r_auto_cl r' = r_auto_cl r /\ r_code r' = r_code r).
+  { unfold stream_write in W. destruct (ensure_sequence r) as [r0|] eqn:E; [|discriminate]. inversion W; subst r'; clear W.
+    cbn [with_body r_headers r_auto_cl r_code].
+    assert (r_headers r0 = r_headers r /\ r_auto_cl r0 = r_auto_cl r /\ r_code r0 = r_code r) as (H1 & H2 & H3).
+    { unfold ensure_sequence in E. destruct (r_is_seq r) eqn:Q; [inversion E; subst; repeat split|].
+      destruct (r_passthrough r); [discriminate|]. inversion E; subst. unfold make_sequence. rewrite Q. repeat split. }
+    rewrite H1, H2, H3. split; [apply clean_del; exact C|split; reflexivity]. }
+  destruct P as (C' & A' & K'). rewrite <- B.
+  destruct (wsgi_content_length iri join cur r' h C' G) as [_ X]. apply X; [exact L|rewrite A'; exact A|exact S|rewrite K'; exact NB].
+Qed.
